@@ -41,7 +41,35 @@ def tasks(tier, seed):
     shards = 48 if tier == "quick" else 192
     t = [(MOD, "hyp", (n // shards, seed * 1_000_003 + i, tier)) for i in range(shards)]
     t.append((MOD, "fixed", ()))
+    t += [(MOD, "guarded", (i, 16, tier)) for i in range(16)]
     return t
+
+
+def guarded(acc, shard, nshards, tier):
+    """L1: (x1 and g1) or (x2 and g2) or x3 with x1..x3 atoms on ONE variable (resp. on the two Python-version
+    variables) and g1, g2 guards on another one: the atoms never meet while the marker is built; only(),
+    exclude(guard variable) and without_extras() drop the guards and unite / merge them for the first time."""
+    import itertools
+
+    from . import c02
+
+    layer = "L1-guarded-dnf"
+    acc.exhaustive_layers.add(layer)
+    mod = sys.modules[MOD]
+    g = [{"var": "os_name", "op": "==", "val": v, "rev": False, "style": 0} for v in ("nt", "posix")]
+    S = c02.str_atoms(tier)
+    A = [a for a in c02.py_atoms("quick") if not a["rev"]][:: 8 if tier == "quick" else 2]
+    k = 0
+    for pool, names in ((S, ["sys_platform"]), (A, ["python_version", "python_full_version"])):
+        for x1, x2, x3 in itertools.product(pool, repeat=3):
+            k += 1
+            if k % nshards != shard or x1 == x2:
+                continue
+            tree = ["or", [["and", [["atom", x1], ["atom", g[0]]]], ["and", [["atom", x2], ["atom", g[1]]]], ["atom", x3]]]
+            harness.process(mod, acc, "family", {"a": ["parse", tree], "b": ["any"], "names": names}, layer)
+            if x3 is pool[0]:
+                tree2 = ["and", [["or", [["atom", x1], ["atom", g[0]]]], ["or", [["atom", x2], ["atom", g[1]]]]]]
+                harness.process(mod, acc, "family", {"a": ["parse", tree2], "b": ["any"], "names": names}, layer)
 
 
 def hyp(acc, n, seed, tier):
